@@ -278,6 +278,33 @@ fn body_for(row: &Row) -> Option<Vec<u8>> {
 
 // ------------------------------------------------------------------ HTTP client
 
+/// Effective (uid, gid) to connect to the Unix socket with (SO_PEERCRED is taken at connect time).
+/// The ids are changed with the raw system calls, which act on the calling thread only – the daemon's
+/// threads in this process keep theirs – and restored straight after the connect.
+static CONNECT_CRED: std::sync::Mutex<Option<(u32, u32)>> = std::sync::Mutex::new(None);
+
+fn connect_unix(p: &Path) -> std::io::Result<UnixStream> {
+    let cred = CONNECT_CRED.lock().ok().and_then(|c| *c);
+    match cred {
+        None => UnixStream::connect(p),
+        Some((u, g)) => unsafe {
+            let keep: libc::c_long = -1;
+            if libc::syscall(libc::SYS_setresgid, keep, g as libc::c_long, keep) != 0
+                || libc::syscall(libc::SYS_setresuid, keep, u as libc::c_long, keep) != 0
+            {
+                let e = std::io::Error::last_os_error();
+                libc::syscall(libc::SYS_setresuid, keep, 0 as libc::c_long, keep);
+                libc::syscall(libc::SYS_setresgid, keep, 0 as libc::c_long, keep);
+                return Err(e);
+            }
+            let r = UnixStream::connect(p);
+            libc::syscall(libc::SYS_setresuid, keep, 0 as libc::c_long, keep);
+            libc::syscall(libc::SYS_setresgid, keep, 0 as libc::c_long, keep);
+            r
+        },
+    }
+}
+
 #[derive(Clone, Debug)]
 enum Tr {
     Unix(PathBuf),
@@ -321,7 +348,7 @@ fn http(tr: &Tr, method: &str, path: &str, auth: Option<&[u8]>, body: Option<&[u
         let res: std::io::Result<()> = (|| {
             match tr {
                 Tr::Unix(p) => {
-                    let mut s = UnixStream::connect(p)?;
+                    let mut s = connect_unix(p)?;
                     s.set_read_timeout(Some(Duration::from_secs(60)))?;
                     s.write_all(&req)?;
                     let _ = s.read_to_end(&mut buf);
@@ -627,6 +654,7 @@ impl Instance {
                 _scratch: scratch,
             };
             inst.wait_ready();
+            let _ = std::fs::set_permissions(&sock, std::os::unix::fs::PermissionsExt::from_mode(0o777));
             return inst;
         }
         panic!("could not start the krill daemon");
@@ -1045,7 +1073,7 @@ impl<'a> Runner<'a> {
         Err(format!("auth descriptor {desc}"))
     }
 
-    fn who_for(&self, auth: &str, unix: bool) -> Who {
+    fn who_for(&self, auth: &str, unix: bool, peer: &str) -> Who {
         let wire = auth.strip_prefix("bearer:").or_else(|| auth.strip_prefix("bearerpad:"));
         if let Some(w) = wire {
             if w == format!("txt:{}", hexs(&self.cfg.admin)) {
@@ -1058,7 +1086,7 @@ impl<'a> Runner<'a> {
             }
         }
         if unix {
-            if let Some((_, rn)) = self.cfg.unix.iter().find(|(u, _)| *u == self.peer) {
+            if let Some((_, rn)) = self.cfg.unix.iter().find(|(u, _)| *u == peer) {
                 if let Some(r) = self.cfg.roles.iter().find(|r| r.name == *rn) {
                     return Who::Role(r.clone());
                 }
@@ -1142,9 +1170,14 @@ impl<'a> Runner<'a> {
         } else {
             self.inst.unix.clone()
         };
-        // the peer is whoever runs the harness: normalise the line
+        // the peer is whoever runs the harness – or the user of the effective uid of `cred=<euid>:<egid>`
+        let cred: Option<(u32, u32)> = kv(w, "cred").and_then(|c| c.split_once(':')).and_then(|(u, g)| Some((u.parse().ok()?, g.parse().ok()?)));
+        let peer_name = match cred {
+            Some((u, _)) => nix::unistd::User::from_uid(nix::unistd::Uid::from_raw(u)).ok().flatten().map(|x| x.name).unwrap_or_else(|| format!("uid{u}")),
+            None => self.peer.clone(),
+        };
         let op = if trs.starts_with("unix") {
-            op.replace(&format!("tr={trs}"), &format!("tr=unix:{}", self.peer))
+            op.replace(&format!("tr={trs}"), &format!("tr=unix:{peer_name}"))
         } else {
             op.to_string()
         };
@@ -1168,7 +1201,7 @@ impl<'a> Runner<'a> {
         let seg_list: Vec<&str> = if segs == "-" { Vec::new() } else { segs.split('/').collect() };
         let predicted_mut = row.method != "GET"
             && !is_login
-            && predict_served(&row, &seg_list, &self.who_for(authd, trs.starts_with("unix")));
+            && predict_served(&row, &seg_list, &self.who_for(authd, trs.starts_with("unix"), &peer_name));
         if self.check_effects {
             if predicted_mut {
                 // the state may legitimately change now: settle the refused block first
@@ -1180,7 +1213,13 @@ impl<'a> Runner<'a> {
             }
         }
         let all = if want_list { Some(if issues_row { self.inst.issue_list() } else { self.inst.ca_list() }) } else { None };
+        if let Ok(mut c) = CONNECT_CRED.lock() {
+            *c = cred;
+        }
         let (status, rbody) = http(&tr, method, &path, auth.as_deref(), body.as_deref());
+        if let Ok(mut c) = CONNECT_CRED.lock() {
+            *c = None;
+        }
         if std::env::var("KHTTP_BODY").is_ok() {
             eprintln!("{method} {path} -> {status} {}", String::from_utf8_lossy(&rbody).chars().take(1500).collect::<String>());
         }
@@ -1741,7 +1780,41 @@ fn gen_plans(seed: u64, tier: &str, rows: &[Row], peer: &str) -> (Vec<(CaseCfg, 
         }
         plans.push(Plan { inst, id: format!("s{seed}-c20-mutations-{}-{role}", if inst == 0 { "unmapped" } else { "mapped" }), cfg: c, ops });
     }
-    let insts = vec![(cfg0, true), (cfg1, false), (cfg2, false)];
+    // ---- instance 3 (C20, only as root): several system accounts mapped, the connecting thread's effective
+    // uid and gid varied; the identity must be the user of the effective UID, whatever the gid
+    let mut insts = vec![(cfg0, true), (cfg1, false), (cfg2, false)];
+    if nix::unistd::geteuid().is_root() {
+        let name_of = |u: u32| nix::unistd::User::from_uid(nix::unistd::Uid::from_raw(u)).ok().flatten().map(|x| x.name);
+        let wanted: [(u32, Option<&str>); 5] = [(0, Some("readonly")), (1, Some("admin")), (2, Some("override")), (3, Some("scoped")), (65534, None)];
+        let accounts: Vec<(u32, String, Option<&str>)> = wanted.iter().filter_map(|(u, r)| name_of(*u).map(|n| (*u, n, *r))).collect();
+        let cfg3 = CaseCfg {
+            admin_only: false,
+            admin: admin.clone(),
+            testbed: false,
+            key: 4,
+            roles: roles.iter().filter(|r| ["readonly", "admin", "override", "scoped"].contains(&r.name.as_str())).cloned().collect(),
+            users: users.iter().filter(|u| u.role == "readonly").cloned().collect(),
+            unix: accounts.iter().filter_map(|(_, n, r)| r.map(|r| (n.clone(), r.to_string()))).collect(),
+        };
+        let idrow = rows.iter().find(|r| r.handler == "cas::id_index" && r.method == "POST").unwrap();
+        let list = rows.iter().find(|r| r.pattern == "/api/v1/cas" && r.method == "GET").unwrap();
+        let publish = rows.iter().find(|r| r.pattern == "/api/v1/bulk/cas/publish" && r.method == "POST").unwrap();
+        let mut ops = Vec::new();
+        for (u, _, _) in &accounts {
+            for g in [0u32, 1, 2, 3, 12, 65534] {
+                let c = format!("cred={u}:{g}");
+                ops.push(format!("{} {c}", probe_ca(rows, "ca3", "unix", "none")));
+                ops.push(format!("{} {c}", probe_ca(rows, "ca1", "unix", &format!("bearer:txt:{}", hexs("wrong secret")))));
+                ops.push(format!("req {} GET segs=api/v1/cas tr=unix auth=none {c}", list.idx));
+                ops.push(format!("req {} POST segs=api/v1/bulk/cas/publish tr=unix auth=none {c}", publish.idx));
+                ops.push(format!("req {} POST segs=api/v1/cas/ca3/id tr=unix auth=none {c}", idrow.idx));
+            }
+        }
+        plans.push(Plan { inst: 3, id: format!("s{seed}-c20-unixcred"), cfg: cfg3.clone(), ops });
+        insts.push((cfg3, false));
+    } else {
+        eprintln!("[http] not running as root: the Unix-socket peer credentials are not varied (case c20-unixcred skipped)");
+    }
     (insts, plans)
 }
 
